@@ -52,6 +52,8 @@ def _work(args):
     methods = list(pharness.METHODS)
     if quick:
         methods = rng.sample(methods, 3)
+    # the dialect of the run: data.csv / unmatched.csv parse back with it
+    dia = rng.choice([{}, {}, {"delimiter": ";", "quotechar": '"'}, {"delimiter": "|", "quotechar": "'"}])
     out = []
     for wi, method in enumerate(methods):
         r = grouprun.Recorder()
@@ -59,7 +61,7 @@ def _work(args):
         raised = None
         try:
             with scratch.silence():
-                cp = grouprun.setup_project("arch", records, {"g": texts})
+                cp = grouprun.setup_project("arch", records, {"g": texts}, **dia)
                 r.install()
                 log.install()
                 try:
@@ -76,7 +78,7 @@ def _work(args):
         except OutOfModel:
             return {"oom": True}
         rec["tid"] = gi * 10 + wi
-        rec["_info"] = {"method": method, "texts": texts, "records": records}
+        rec["_info"] = {"method": method, "texts": texts, "records": records, "dialect": dia}
         out.append(rec)
     return {"recs": out}
 
